@@ -302,7 +302,7 @@ Proof.
   split; [reflexivity|]. split; [|reflexivity]. vm_compute. discriminate.
 Qed.
 
-(* the rule before repair 54a5b4a: the removed close() closed another object *)
+(* the rule before repair e19a6bf: the removed close() closed another object *)
 Theorem mcm_old_refuted_rebind : exists b b' o,
   mcm1_old b = Some b' /\ mcm1 b <> Some b' /\
   s_files (snd (exec_block o st0 b)) = [true; false] /\ s_files (snd (exec_block o st0 b')) = [false; true] /\
@@ -316,7 +316,7 @@ Proof.
     destruct h as [|[|[|h]]]; vm_compute in H; discriminate.
 Qed.
 
-(* the rule before repair 2ee0610: a nested `return x` hands out a closed file *)
+(* the rule before repair 7bedbf5: a nested `return x` hands out a closed file *)
 Theorem mcm_old_refuted_nested_return : exists b b' o,
   mcm1_old b = Some b' /\ mcm1 b = None /\
   fst (exec_block o st0 b) = Ret (RHandle 0 true) /\ fst (exec_block o st0 b') = Ret (RHandle 0 true) /\
